@@ -8,7 +8,7 @@
     [sfx] / [sibling_fix]: the generator with / without fixes/C20-nla-sibling-dependencies.diff. *)
 From Coq Require Import List Bool Arith.
 From LC Require Import AnalysisDefs AnalysisSpec AnalysisOwnProofs ExternalDefs ExternalEmitProofs ExternalMarkProofs ExternalProofs ExternalWitness
-                       ExternalMsgProofs ExternalOwnProofs ExternalWitness2.
+                       ExternalMsgProofs ExternalOwnProofs ExternalWitness2 ExternalNlaProofs.
 Import ListNotations.
 
 (** ** The model is C05's *)
@@ -77,6 +77,29 @@ Theorem C20_one_definer_with_externals : forall s marks ivs0 es0 st es1,
   own_inv (cs_ivs st) es1.
 Proof. exact ExternalOwnProofs.one_definer_with_externals. Qed.
 Print Assumptions C20_one_definer_with_externals.
+
+(** NLA grouping is computed on the PRUNED unknown sets: when the walk of analyseModel stands on the NLA equation k, the
+    siblings it records for it are exactly the other NLA equations that share with it an unknown that is NOT marked as
+    external — two NLA equations whose only common unknown is an external variable are not siblings.  (Direct siblings;
+    the NLA system index is propagated along them during the same walk, which is not transitive in general: C05's known
+    finding C05-nla-system-split.) *)
+Theorem C20_nla_grouping_after_pruning : forall ivs st k,
+  let es := ns_es st in
+  k < length es -> is_nla (gete es k) = true ->
+  ie_sibs (gete (ns_es (nla_step ivs st k)) k) =
+  ie_sibs (gete es k) ++
+  filter (fun j => negb (j =? k) && is_nla (gete es j) && shares_kept_unknown ivs es k j) (seq 0 (length es)).
+Proof. exact ExternalNlaProofs.nla_grouping_after_pruning. Qed.
+Print Assumptions C20_nla_grouping_after_pruning.
+
+Example C20_nla_grouping_example :
+  let nla r := map (fun e => (ae_id e, ae_vars e, ae_nla e, ae_sibs e)) (filter (fun e => qtype_eqb (ae_type e) QNla) (r_eqs r)) in
+  option_map (fun r => (r_type r, nla r)) (result_of (analyse_x true sysN [])) =
+    Some (MNla, [(Some 1001, [(0, 0); (0, 2)], Some 0, [1]); (Some 1002, [(0, 1); (0, 2)], Some 0, [0])]) /\
+  option_map (fun r => (r_type r, nla r)) (result_of (analyse_x true sysN mark_e)) =
+    Some (MNla, [(Some 1001, [(0, 0)], Some 0, []); (Some 1002, [(0, 1)], Some 1, [])]).
+Proof. exact ExternalWitness2.grouping_example. Qed.
+Print Assumptions C20_nla_grouping_example.
 
 (* NOT PROVED (the _partial of the refutation above): for an external variable whose internal variable is not a state left
    without index, av_eqs a = [ae_pos e] with e in r_eqs r, ae_type e = QExternal, ae_vars e = [av_var a], and ae_deps e = the
